@@ -174,8 +174,12 @@ where
 
                     while ptr < self.buf.end {
                         if *ptr == b'\\' {
-                            let advance = self.buf.end.offset_from(ptr).min(2);
-                            ptr = ptr.offset(advance);
+                            if self.buf.end.offset_from(ptr) < 2 {
+                                // the escaped byte hasn't been read yet, so
+                                // resume at the backslash after the refill
+                                break;
+                            }
+                            ptr = ptr.add(2);
                         } else if *ptr != b'"' {
                             ptr = ptr.add(1);
                         } else {
@@ -188,7 +192,8 @@ where
 
                     // buffer or prior read too small
                     let len = self.buf.window_len();
-                    self.next_opt_refill(ParseState::Quote, len, len)
+                    let offset = ptr.offset_from(self.buf.start) as usize;
+                    self.next_opt_refill(ParseState::Quote, len, offset)
                 }
                 ParseState::Unquoted => {
                     let mut ptr = self.buf.start.add(offset);
